@@ -146,7 +146,9 @@ def two_failures(storage: str, entry: str, cls: str, args: list, shared: bool) -
         for run, inputs in enumerate((in1, in2)):
             # a pool of its own per run, drained before the run's events are collected: elements that were still running
             # when map raised belong to THIS run
-            ex = ThreadPoolExecutor(3) if entry == "thread" else None
+            # "thread1": ONE worker - the elements run in order, the ones after the failing element START after its failure
+            # has been recorded (whatever an invocation does when it starts must not disturb what the failed one exposed)
+            ex = ThreadPoolExecutor(1 if entry == "thread1" else 3) if entry.startswith("thread") else None
             e, res = pmap.do_map(pl, pdesc, pmap.inputs_to_py(inputs, {"a": "list"}), run_folder=f"{tmp}/r{run}", storage=storage,
                                  parallel=ex is not None, executor=ex, cleanup=True, load=False,
                                  settle=(lambda ex=ex: ex.shutdown(wait=True)) if ex is not None else None)
@@ -375,8 +377,9 @@ def run(ctx: Ctx) -> None:
         pfails.append(fl)
         ctx.case({"pool": "thread", "fl": fl, "d": sc["desc"]})
     # two failures on one pipeline object
-    for k, (st, en) in enumerate([("dict", "seq"), ("file_array", "thread"), ("file_array", "seq"), ("shared_memory_dict", "thread")]
-                                 if quick else [(st, en) for st in c03.STORAGES for en in ("seq", "thread")]):
+    for k, (st, en) in enumerate([("dict", "seq"), ("file_array", "thread"), ("file_array", "seq"), ("shared_memory_dict", "thread"),
+                                  ("dict", "thread1"), ("file_array", "thread1")]
+                                 if quick else [(st, en) for st in c03.STORAGES for en in ("seq", "thread", "thread1")]):
         for shared in (False, True):
             cls, args = EXC_KINDS[(k + shared) % len(EXC_KINDS)]
             ptraces.append(two_failures(st, en, cls, list(args), shared))
